@@ -161,6 +161,21 @@ fn extract_item(f: &syn::File, item: &Value) -> Result<Value, String> {
                 };
                 if ident == name && k == kind {
                     let before = ts_string(it);
+                    let mut derives: Vec<String> = Vec::new();
+                    let empty_attrs: Vec<syn::Attribute> = Vec::new();
+                    let attrs: &Vec<syn::Attribute> = match it {
+                        syn::Item::Struct(s) => &s.attrs,
+                        syn::Item::Enum(s) => &s.attrs,
+                        _ => &empty_attrs,
+                    };
+                    for a in attrs.iter() {
+                        if a.path().is_ident("derive") {
+                            let _ = a.parse_nested_meta(|m| {
+                                derives.push(last_seg(&m.path));
+                                Ok(())
+                            });
+                        }
+                    }
                     let mut it2 = it.clone();
                     clean_item(&mut it2, &derive_keep, &type_subst);
                     let file = syn::File { shebang: None, attrs: vec![], items: vec![it2.clone()] };
@@ -168,6 +183,7 @@ fn extract_item(f: &syn::File, item: &Value) -> Result<Value, String> {
                         "text": prettyplease::unparse(&file),
                         "hash_before": fnv(&before),
                         "hash_after": fnv(&ts_string(&it2)),
+                        "derives": derives,
                         "fns": [],
                     }));
                 }
@@ -551,8 +567,11 @@ impl<'a> MarkVisitor<'a> {
     fn mark_loop_body(&mut self, k: usize, body: &mut Block) {
         // end markers first (so that indices of start do not shift them)
         if let Some(ids) = self.proofs_loop_end.get(&k).cloned() {
-            let tail_is_expr = matches!(body.stmts.last(), Some(Stmt::Expr(_, None)));
-            let pos = if tail_is_expr { body.stmts.len() - 1 } else { body.stmts.len() };
+            // a loop body has type (): the block goes after its last statement
+            let pos = body.stmts.len();
+            if let Some(Stmt::Expr(_, semi @ None)) = body.stmts.last_mut() {
+                *semi = Some(Default::default());
+            }
             for (n, id) in ids.iter().enumerate() {
                 body.stmts.insert(pos + n, self.pm(id));
             }
